@@ -399,6 +399,12 @@ func rewriteTree(gf *lfs.GitFilter, db *gitobj.ObjectDatabase, root []byte, path
 		}
 
 		blobEntry := tree.Entries[index]
+		if blobEntry.Filemode == 0120000 {
+			// A symbolic link is never filtered: its blob is the
+			// path it points to, and is left as it is (as when
+			// history is rewritten).
+			return root, nil
+		}
 		blob, err := db.Blob(blobEntry.Oid)
 		if err != nil {
 			return nil, err
